@@ -9,6 +9,7 @@
   access (`get_unchecked`, `read_unaligned`, `from_utf8_unchecked`) would violate its precondition.
 -/
 import Rsdns.Lemmas.Reader
+import Rsdns.Lemmas.Encode
 
 namespace Rsdns.C17
 
@@ -63,6 +64,23 @@ theorem rdata_any (t : RType) (msg : Bytes) (c : Cur) (h : Cur.OK msg c) (rdLen 
   have := readRData_spec t msg rdLen c h
   cases hr : readRData t msg rdLen c with
   | mk res c' => rw [hr] at this; cases res <;> simp_all
+
+/-- **C17, write side.**  The only unchecked stores outside the readers are those of the query encoder
+    (`WCursor::u8_unchecked` / `bytes_unchecked`, behind every client's `query_raw` / `query_rrset`): for
+    every buffer size — the clients' own 288-byte buffer (`Generated.STD_QUERY_BUFFER_SIZE`,
+    `ASYNC_QUERY_BUFFER_SIZE`) in particular — and every caller-supplied name, type, class and option the
+    encoder returns a value or an error, never the `ub` outcome and never a panic. -/
+theorem query_writer_no_ub (cap id : Nat) (qname : Bytes) (qtype qclass : Nat) (rd : Bool) (opt : Option (Nat × Nat)) :
+    (writeQuery cap id qname qtype qclass rd opt).noUB := by
+  have h := (C11.writeQuery_safe cap id qname qtype qclass rd opt).1
+  cases hw : writeQuery cap id qname qtype qclass rd opt <;> simp_all [Res.safe, Res.noUB]
+
+/-- what the clients call: `prepare_message` on their fixed buffer -/
+theorem prepare_message_no_ub (c : Cfg) (id : Nat) (qname : Bytes) (qtype qclass buflen : Nat) :
+    (prepareMessage c id qname qtype qclass buflen).noUB := by
+  have h := query_writer_no_ub c.queryBufferSize id qname qtype qclass c.rd (clientOpt c buflen)
+  unfold prepareMessage
+  cases hw : writeQuery c.queryBufferSize id qname qtype qclass c.rd (clientOpt c buflen) <;> simp_all [Res.noUB]
 
 /-! non-vacuity: the reader over a 12-byte message exists, and a marker taken elsewhere (offset 38,
     zero length) is an admissible argument -/
